@@ -22,6 +22,12 @@ func Limb() *rapid.Generator[uint64] {
 		switch rapid.IntRange(0, 7).Draw(t, "limbKind") {
 		case 0, 1:
 			return U64(t, "limb")
+		case 3:
+			// quotient-aimed limb: a low Montgomery limb a0 for which the first quotient digit of a word-by-word
+			// Montgomery reduction, q = a0 * (-m^-1) mod 2^64, equals floor(2^k / c) +- 1 with c = 2^256 - m: then q*c
+			// has an all-ones word and every carry / borrow of the round has to ripple through it
+			i := rapid.IntRange(0, len(quotientAimed)-1).Draw(t, "qa")
+			return quotientAimed[i]
 		case 2:
 			// fold-boundary limb: w with w * c = -delta (mod 2^64) for the low word c of a modulus defect 2^256 - m
 			// (p: 2^32+977, n: 0x402da1732fc9bebf): the low half of the product w*c sits just below 2^64, where the
@@ -460,3 +466,21 @@ func algebraicConstants(m *big.Int) []*big.Int {
 	algCache[key] = out
 	return out
 }
+
+var quotientAimed = func() []uint64 {
+	var out []uint64
+	for _, hexm := range []string{
+		"fffffffffffffffffffffffffffffffebaaedce6af48a03bbfd25e8cd0364141", // n
+		"fffffffffffffffffffffffffffffffffffffffffffffffffffffffefffffc2f", // p
+	} {
+		m, _ := new(big.Int).SetString(hexm, 16)
+		c := new(big.Int).Sub(two256, m)
+		q := new(big.Int).Div(new(big.Int).Lsh(one, uint(c.BitLen()+63)), c).Uint64()
+		m0 := new(big.Int).And(m, new(big.Int).SetUint64(^uint64(0))).Uint64()
+		for d := -2; d <= 2; d++ {
+			// a0 * (-m0^-1) = q + d  (mod 2^64)   =>   a0 = -(q + d) * m0
+			out = append(out, -(q+uint64(int64(d)))*m0)
+		}
+	}
+	return out
+}()
